@@ -27,25 +27,29 @@ import (
 )
 
 type scen struct {
-	ID        string `json:"id"`
-	Mode      string `json:"mode"`
-	Async     bool   `json:"async"`
-	Exec      string `json:"exec"` // default | custom
-	NPoller   int    `json:"npoller"`
-	RBuf      int    `json:"rbuf"`
-	MaxRead   int    `json:"maxread"`
-	Transport string `json:"transport"`
-	Seed      int64  `json:"seed"`
-	Conns     int    `json:"conns"`
-	IdleMs    int    `json:"idle_ms"`
-	Slow      bool   `json:"slow"` // slow data callback (readiness events arrive while a read task runs)
-	Pending   bool   `json:"pending"` // the peer half-closes / closes while input is still unread
-	Backlog   bool   `json:"backlog"` // the server first writes more than the socket takes: the poller handles pure writing
+	ID          string `json:"id"`
+	Mode        string `json:"mode"`
+	Async       bool   `json:"async"`
+	Exec        string `json:"exec"` // default | custom
+	NPoller     int    `json:"npoller"`
+	RBuf        int    `json:"rbuf"`
+	MaxRead     int    `json:"maxread"`
+	Transport   string `json:"transport"`
+	Seed        int64  `json:"seed"`
+	Conns       int    `json:"conns"`
+	IdleMs      int    `json:"idle_ms"`
+	Slow        bool   `json:"slow"`        // slow data callback (readiness events arrive while a read task runs)
+	Pending     bool   `json:"pending"`     // the peer half-closes / closes while input is still unread
+	WriteDuring bool   `json:"writeduring"` // while a slow data callback runs (more input pending) another goroutine Writes a
+	// block that leaves a backlog: the writing side re-arms the descriptor during the read
+	Backlog bool `json:"backlog"` // the server first writes more than the socket takes: the poller handles pure writing
 	// events (flushes that end on EAGAIN) while the peer is silent, then the peer sends
 }
 
 var tr *hlib.Trace
 var tmpdir string
+var udpMu sync.Mutex
+var udpSocks []net.Conn
 
 func pbyte(sid, off int) byte {
 	if off < 4 {
@@ -64,6 +68,7 @@ type sess struct {
 	off int
 	hdr []byte
 	inH int32 // handlers running (overlap detection)
+	wd  int32 // writeduring: the slow callback with the concurrent Write happened
 }
 
 func cpuNow() time.Duration {
@@ -119,6 +124,13 @@ func run(s scen) (bytes int64) {
 			atomic.AddInt32(&overlaps, 1)
 		}
 		defer atomic.AddInt32(&ss.inH, -1)
+		if s.WriteDuring && s.Transport != "udp" && len(data) == s.RBuf && atomic.CompareAndSwapInt32(&ss.wd, 0, 1) {
+			go func() {
+				time.Sleep(30 * time.Millisecond)
+				c.Write(make([]byte, 16<<20)) // the peer does not read it: a backlog, the descriptor is re-armed for writing
+			}()
+			time.Sleep(150 * time.Millisecond)
+		}
 		if s.Transport == "udp" {
 			// datagram: [remote id:4][seq:4][pattern...]
 			id, _ := connIDs.LoadOrStore(c, int(atomic.AddInt32(&nextConn, 1)))
@@ -193,7 +205,11 @@ func run(s scen) (bytes int64) {
 				if err != nil {
 					return
 				}
-				defer c.Close()
+				// the socket stays open until the scenario is over: a remote that starts later must not get the same
+				// source port from the kernel (it would rightly be the same logical connection for the engine)
+				udpMu.Lock()
+				udpSocks = append(udpSocks, c)
+				udpMu.Unlock()
 				rr := rand.New(rand.NewSource(s.Seed + int64(r)))
 				seq := 0
 				for round := 0; round < 6; round++ {
@@ -302,7 +318,16 @@ func run(s scen) (bytes int64) {
 		}
 	}
 	done := make(chan struct{})
-	go func() { wg.Wait(); close(done) }()
+	go func() {
+		wg.Wait()
+		udpMu.Lock()
+		for _, c := range udpSocks {
+			c.Close()
+		}
+		udpSocks = nil
+		udpMu.Unlock()
+		close(done)
+	}()
 	select {
 	case <-done:
 	case <-time.After(20 * time.Second):
